@@ -13,6 +13,10 @@ package neutrino
 //   * "Version"/"VerAck" write real wire messages into the connection, so
 //     btcd's peer runs its real handshake and calls ServerPeer.OnVersion /
 //     OnVerAck -> AddPeer -> handleAddPeerMsg;
+//   * "BanBegin"/"BanCommit" take one BanPeer call in two steps: the call runs
+//     in a goroutine of its own and its ban write is HELD (the ChainService's
+//     ban store is a proxy that can hold one BanIPNet before it reaches the
+//     real store); everything else goes on meanwhile; BanCommit lets it go;
 //   * "Misbehave" calls ChainService.BanPeer(addr, reason) the way the
 //     validation sites in query.go / blockmanager.go do (the detection logic
 //     itself belongs to the C03/C05/C06 families);
@@ -74,6 +78,8 @@ type vfeConn struct {
 	cmds          []string     // commands of the messages the client wrote
 	clientClosed  bool
 	remoteClosed  bool
+	fedVersion    bool // the remote version has been written into the connection
+	fedVerAck     bool
 }
 
 func vfeNewConn(slot, i, j int, remote *net.TCPAddr) *vfeConn {
@@ -150,6 +156,12 @@ func (c *vfeConn) remoteClose() {
 	c.mu.Unlock()
 }
 
+func (c *vfeConn) remoteClosedNow() bool {
+	c.mu.Lock()
+	defer c.mu.Unlock()
+	return c.remoteClosed
+}
+
 func (c *vfeConn) closedByClient() bool {
 	c.mu.Lock()
 	defer c.mu.Unlock()
@@ -168,6 +180,44 @@ func (c *vfeConn) wrote(cmd string) bool {
 }
 
 // ---------------------------------------------------------------------------
+
+// vfeHoldStore is the ChainService's ban store: the real banman store, except
+// that ONE BanIPNet call can be held before it reaches the real store (its
+// write transaction has then not begun).  Status / Unban and other BanIPNet
+// calls pass.
+type vfeHoldStore struct {
+	banman.Store
+	mu      sync.Mutex
+	armed   bool
+	held    chan struct{} // closed when the armed call has arrived
+	release chan struct{} // closed to let it go
+}
+
+func (h *vfeHoldStore) arm() {
+	h.mu.Lock()
+	h.armed, h.held, h.release = true, make(chan struct{}), make(chan struct{})
+	h.mu.Unlock()
+}
+
+func (h *vfeHoldStore) BanIPNet(n *net.IPNet, r banman.Reason, d time.Duration) error {
+	h.mu.Lock()
+	if h.armed {
+		h.armed = false
+		held, release := h.held, h.release
+		h.mu.Unlock()
+		close(held)
+		<-release
+	} else {
+		h.mu.Unlock()
+	}
+	return h.Store.BanIPNet(n, r, d)
+}
+
+type vfePendingBan struct {
+	i, j, k int
+	done    chan error
+	hold    *vfeHoldStore
+}
 
 type vfeHeaders struct {
 	headerfs.BlockHeaderStore
@@ -227,6 +277,11 @@ type vfeEnv struct {
 	s           *ChainService // what the code under test sees
 	inner       *ChainService // what the real peerHandler runs on (same channels and stores)
 	foreignGets int64         // getPeersMsg requests answered that did not come from the driver
+	connGets    int64         // ... of which made by outboundPeerConnected during a Connect step
+	wantBanGets int64         // BanPeer calls whose PeerByAddr look-up must have been answered by now
+	hold        *vfeHoldStore
+	pend        *vfePendingBan
+	diverged    bool
 	db    walletdb.DB
 	np    int
 	ips   []net.IP
@@ -271,7 +326,8 @@ func vfeStart(dir string, np, ni, nj int, rng *rand.Rand) (*vfeEnv, error) {
 		db.Close()
 		return nil, err
 	}
-	e := &vfeEnv{db: db, np: np, rng: rng, slots: make([]*vfeConn, np)}
+	hold := &vfeHoldStore{Store: store}
+	e := &vfeEnv{db: db, np: np, rng: rng, slots: make([]*vfeConn, np), hold: hold}
 	seen := map[string]bool{}
 	for len(e.ips) < ni {
 		var ip net.IP
@@ -323,7 +379,7 @@ func vfeStart(dir string, np, ni, nj int, rng *rand.Rand) (*vfeEnv, error) {
 		quit:              make(chan struct{}),
 		timeSource:        blockchain.NewMedianTime(),
 		services:          0,
-		banStore:          store,
+		banStore:          hold,
 		userAgentName:     "verif",
 		userAgentVersion:  "0.0.1",
 	}
@@ -403,6 +459,15 @@ func vfeStart(dir string, np, ni, nj int, rng *rand.Rand) (*vfeEnv, error) {
 }
 
 func (e *vfeEnv) stop() {
+	if e.pend != nil { // a path may end inside the window
+		close(e.pend.hold.release)
+		select {
+		case <-e.pend.done:
+		case <-time.After(vfeWait):
+		}
+		e.banLookupsDone()
+		e.pend = nil
+	}
 	atomic.StoreInt32(&e.s.shutdown, 1)
 	atomic.StoreInt32(&e.inner.shutdown, 1)
 	close(e.s.quit)
@@ -528,15 +593,47 @@ func (e *vfeEnv) message(msg wire.Message) []byte {
 	return buf.Bytes()
 }
 
+// banLookupsDone waits until every BanPeer call made so far has had its
+// PeerByAddr look-up answered (BanPeer does that in a goroutine of its own).
+func (e *vfeEnv) banLookupsDone() bool {
+	return vfeUntil(vfeWait, func() bool {
+		return atomic.LoadInt64(&e.foreignGets)-atomic.LoadInt64(&e.connGets) >= atomic.LoadInt64(&e.wantBanGets)
+	})
+}
+
+// applicable says whether the environment can perform the action at all in
+// the state the real system is in (it always can while the code follows the
+// model).
+func (e *vfeEnv) applicable(a vfeAct) bool {
+	var c *vfeConn
+	if a.P >= 1 && a.P <= e.np {
+		c = e.conn(a.P)
+	}
+	open := c != nil && !c.closedByClient() && !c.remoteClosedNow()
+	switch a.Op {
+	case "Connect":
+		return !open
+	case "Version":
+		return open && c.wrote("version") && !c.fedVersion
+	case "VerAck":
+		return open && c.fedVersion && c.wrote("verack") && !c.fedVerAck
+	case "Drop":
+		return open
+	case "BanBegin":
+		return e.pend == nil
+	case "BanCommit":
+		return e.pend != nil
+	}
+	return true
+}
+
 func (e *vfeEnv) exec(a vfeAct) (out vfeAct, conc string) {
 	out = a
-	gets0 := atomic.LoadInt64(&e.foreignGets)
 	defer func() {
-		// BanPeer looks for the peer to disconnect in a goroutine of its own:
-		// wait until that look-up has been answered
-		if a.Op == "Misbehave" || (a.Op == "Version" && out.Res == "dropped") {
-			vfeUntil(vfeWait, func() bool { return atomic.LoadInt64(&e.foreignGets) > gets0 })
+		if a.Op == "Misbehave" || a.Op == "BanCommit" || (a.Op == "Version" && out.Res == "dropped") {
+			atomic.AddInt64(&e.wantBanGets, 1)
 		}
+		e.banLookupsDone()
 	}()
 	switch a.Op {
 	case "Connect":
@@ -549,6 +646,8 @@ func (e *vfeEnv) exec(a vfeAct) (out vfeAct, conc string) {
 		e.slots[a.P-1] = nil
 		e.dialSlot, e.dialI, e.dialJ = a.P, a.I, a.J
 		e.mu.Unlock()
+		g0 := atomic.LoadInt64(&e.foreignGets)
+		defer func() { atomic.AddInt64(&e.connGets, atomic.LoadInt64(&e.foreignGets)-g0) }()
 		e.s.connManager.Connect(&connmgr.ConnReq{Addr: ta, Permanent: perm})
 		c := e.conn(a.P)
 		if c == nil {
@@ -586,6 +685,7 @@ func (e *vfeEnv) exec(a vfeAct) (out vfeAct, conc string) {
 		mv.Services = sv
 		mv.ProtocolVersion = int32(wire.ProtocolVersion)
 		conc = fmt.Sprintf("services=%v", sv)
+		c.fedVersion = true
 		c.feed(e.message(mv))
 		ok := vfeUntil(vfeWait, func() bool { return c.closedByClient() || c.wrote("verack") })
 		switch {
@@ -602,6 +702,7 @@ func (e *vfeEnv) exec(a vfeAct) (out vfeAct, conc string) {
 			out.Res = "noconn"
 			return
 		}
+		c.fedVerAck = true
 		c.feed(e.message(wire.NewMsgVerAck()))
 		ok := vfeUntil(vfeWait, func() bool { return c.closedByClient() || e.keptSlots()[a.P] })
 		switch {
@@ -619,6 +720,65 @@ func (e *vfeEnv) exec(a vfeAct) (out vfeAct, conc string) {
 			out.Res = "err"
 		} else {
 			out.Res = "ok"
+		}
+	case "BanBegin":
+		addr := e.addr(a.I, a.J).String()
+		conc = addr
+		e.hold.arm()
+		pb := &vfePendingBan{i: a.I, j: a.J, k: a.K, done: make(chan error, 1), hold: e.hold}
+		held := e.hold.held
+		go func() { pb.done <- e.s.BanPeer(addr, banman.Reason(a.K)) }()
+		returned := false
+		ok := vfeUntil(vfeWait, func() bool {
+			select {
+			case <-held:
+				return true
+			case err := <-pb.done:
+				pb.done <- err
+				returned = true
+				return true
+			default:
+				return false
+			}
+		})
+		switch {
+		case !ok:
+			out.Res = "hang"
+		case returned:
+			out.Res = "returned" // BanPeer came back without writing a ban
+			atomic.AddInt64(&e.wantBanGets, 1)
+		default:
+			out.Res = "held"
+			e.pend = pb
+		}
+		// nothing should happen while the write is held; give whatever the
+		// call may have set off already a moment to show
+		g := atomic.LoadInt64(&e.foreignGets)
+		time.Sleep(2 * time.Millisecond)
+		vfeUntil(20*time.Millisecond, func() bool {
+			g2 := atomic.LoadInt64(&e.foreignGets)
+			same := g2 == g
+			g = g2
+			return same
+		})
+	case "BanCommit":
+		pb := e.pend
+		if pb == nil {
+			out.Res = "nopending"
+			return
+		}
+		conc = e.addr(pb.i, pb.j).String()
+		close(pb.hold.release)
+		e.pend = nil
+		select {
+		case err := <-pb.done:
+			if err != nil {
+				out.Res = "err"
+			} else {
+				out.Res = "ok"
+			}
+		case <-time.After(vfeWait):
+			out.Res = "hang"
 		}
 	case "Unban":
 		n, err := banman.ParseIPNet(e.addr(a.I, 1).String(), nil)
@@ -711,15 +871,29 @@ func vfeRunOnce(p vfePathIn, scratch string, seed int64) (out vfePathOut) {
 		}
 	}
 	out.InitObs = e.observe()
-	for _, s := range p.Steps {
-		a, conc := e.exec(s.Act)
-		// let the asynchronous consequences finish: wait (bounded) for the
-		// state the model predicts; whatever is there afterwards is recorded
+	record := func(a vfeAct, o vfeObs, conc, note string) {
+		st := vfeStepOut{Act: a, Obs: o, Conc: conc, Note: note}
+		if a.Res == "hang" {
+			buf := make([]byte, 1<<16)
+			buf = buf[:runtime.Stack(buf, true)]
+			st.Conc += " goroutines: " + string(buf)
+		}
+		out.Steps = append(out.Steps, st)
+	}
+	// settle: the state after all asynchronous consequences, when there is
+	// no prediction to wait for: unchanged over 3 ms, ban look-ups answered
+	settle := func() vfeObs {
 		var o vfeObs
+		e.banLookupsDone()
 		vfeUntil(vfeWait, func() bool {
+			o1 := e.observe()
+			time.Sleep(3 * time.Millisecond)
 			o = e.observe()
-			return reflect.DeepEqual(o, s.Obs)
+			return reflect.DeepEqual(o1, o)
 		})
+		return o
+	}
+	heal := func(o vfeObs) vfeObs {
 		// a connection to a banned address that is still kept gets extra
 		// time to go away before it is recorded (once per such set)
 		if kb := o.keptBanned(); kb != "" && kb != e.waited {
@@ -729,18 +903,75 @@ func vfeRunOnce(p vfePathIn, scratch string, seed int64) (out vfePathOut) {
 			})
 			e.waited = o.keptBanned()
 		}
-		st := vfeStepOut{Act: a, Obs: o, Conc: conc}
-		if a.Res == "hang" {
-			buf := make([]byte, 1<<16)
-			buf = buf[:runtime.Stack(buf, true)]
-			st.Conc += " goroutines: " + string(buf)
+		return o
+	}
+	for _, s := range p.Steps {
+		if !e.applicable(s.Act) {
+			// only possible once the code has left the model's prediction:
+			// the environment cannot make this move in the real state
+			e.diverged = true
+			continue
 		}
-		out.Steps = append(out.Steps, st)
+		a, conc := e.exec(s.Act)
+		var o vfeObs
+		if !e.diverged {
+			// let the asynchronous consequences finish: wait (bounded) for
+			// the state the model predicts; whatever is there afterwards is
+			// recorded
+			vfeUntil(vfeWait, func() bool {
+				o = e.observe()
+				return reflect.DeepEqual(o, s.Obs)
+			})
+		} else {
+			o = settle()
+		}
+		o = heal(o)
+		record(a, o, conc, "")
 		if a != s.Act || !reflect.DeepEqual(o, s.Obs) {
-			// The code left the path the model predicted.  The step is
-			// recorded and judged; the rest of the path presupposes the
-			// predicted state and is not applied.
-			return
+			// The code left the path the model predicted.  The remaining
+			// inputs of the path are still fed to the code where the
+			// environment can make them, and judged by Props alone.
+			e.diverged = true
+		}
+	}
+	if e.diverged {
+		// Quiescence after a divergence: the environment finishes what it has
+		// begun - every handshake in progress is completed by a remote that
+		// offers all services, a held ban write commits (which of the two comes
+		// first is drawn from the seed) - and the final state is judged.
+		finishHandshakes := func() {
+			for p := 1; p <= e.np; p++ {
+				for _, op := range []string{"Version", "VerAck"} {
+					c := e.conn(p)
+					a := vfeAct{Op: op, P: p, Res: "?"}
+					if c != nil {
+						a.I, a.J = c.i, c.j
+					}
+					if op == "Version" {
+						a.F = 3
+					}
+					if !e.applicable(a) {
+						continue
+					}
+					a2, conc := e.exec(a)
+					record(a2, heal(settle()), conc, "closure after divergence")
+				}
+			}
+		}
+		commit := func() {
+			if e.pend == nil {
+				return
+			}
+			a := vfeAct{Op: "BanCommit", I: e.pend.i, J: e.pend.j, K: e.pend.k, Res: "?"}
+			a2, conc := e.exec(a)
+			record(a2, heal(settle()), conc, "closure after divergence")
+		}
+		if e.rng.Intn(2) == 0 {
+			finishHandshakes()
+			commit()
+		} else {
+			commit()
+			finishHandshakes()
 		}
 	}
 	return
